@@ -183,6 +183,17 @@ def check(run: Run, prog: Program, model: Model, tier: str) -> None:
     # ---------------------------------------------------------------- ALPHABET
     _alphabets(run, prog, model, cls, carms)
 
+    # ---------------------------------------------------------------- NO-HIDDEN-STATE (memoised fragments go stale)
+    from .c17 import hidden_state
+    hidden_state(run, prog, cls, "NO-HIDDEN-STATE")
+    for m in cls.methods.values():
+        for n in ast.walk(m.node):
+            if isinstance(n, ast.Call) and isinstance(n.func, ast.Name) and n.func.id == "id":
+                run.violated("NO-HIDDEN-STATE", f"{m.qualname}: id()", f"{mod.path}:{n.lineno}",
+                             "object identity used as a key/value in the generator: ids of temporaries are reused",
+                             witness="generate('[^a][^b]') can emit the forbidden character of the second class")
+    run.floor("NO-HIDDEN-STATE", 1)
+
 
 def _run_handler(prog: Program, model: Model, cls: ClassInfo, name: str, mk: Any) -> List[Path]:
     it = Interp(prog, model, unroll=1)
@@ -410,4 +421,10 @@ MUTANTS = [
     {"name": "neutral: count drawn into a differently named local", "expect": "SILENT",
      "edits": [(X, "        count = self._random.random_int(min_count, max_count)\n        return \"\".join(self._generate_pattern(val) for _ in range(count))",
                 "        times = self._random.random_int(min_count, max_count)\n        return \"\".join(self._generate_pattern(val) for _ in range(times))")]},
+]
+
+MUTANTS += [
+    {"name": "negated-class complement memoised by id(node)", "rule": "NO-HIDDEN-STATE",
+     "edits": [(X, "        letters = \"\".join(set(self._alphabet[\"letters\"]) - set(exclude_letters))\n        return self._random.random_choice(letters)",
+                "        key = id(value)\n        if key not in self._alphabet:\n            self._alphabet[key] = \"\".join(set(self._alphabet[\"letters\"]) - set(exclude_letters))\n        return self._random.random_choice(self._alphabet[key])")]},
 ]
